@@ -140,7 +140,9 @@ def run(pid, tier, seed):
                 e = json.loads(ls[n - 1])
                 ftxt = bytes(e["fmt"]).decode("latin-1")
                 e["fmt_text"] = ftxt
-                if e["e"] == "Format":
+                if e["e"] == "Conc":
+                    key = "Format:concurrent-callers:%s" % ftxt[:24]
+                elif e["e"] == "Format":
                     e["out_text"] = bytes(e["out"]).decode("latin-1")
                     key = "Format:%s:%s" % ("ub" if e["ub"] else "output", ftxt[:24])
                 else:
